@@ -1349,16 +1349,35 @@ class NetRun:
             if data.rstrip("\r") == text:
                 go.set()
 
+        behind = spec.get("behind") if self.broker is None and not W.is_async(self.flavour) else None
+        m0 = len(world.device.markers) if self.broker is None else 0
+        w0 = len(world.device.writes) if self.broker is None else 0
         if W.is_async(self.flavour):
             world.device.inject(text.encode("utf-8", "surrogateescape") + b"\n")
             world.on_loop(controller)
         else:
             world.logic_hook = hook
             sim.spawn(waiting_controller, role="controller")
-            world.device.inject(text.encode("utf-8", "surrogateescape") + b"\n")
+            data = text.encode("utf-8", "surrogateescape") + b"\n"
+            if behind:
+                data += behind.encode("utf-8") + b"\n"  # another node's line is queued right behind the racing one
+            world.device.inject(data)
             done.wait(5.0)
             world.logic_hook = None
         world.settle()
+        if behind and call[0] == "set" and self.model.sleeping(call[1]):
+            # whichever way the race went, a command for the sleeping node leaves in the burst of ITS wake-up (or waits for the
+            # next one): once the pump has started on the other node's line, the wake window is over
+            later = [m for m in world.device.markers[m0:] if str(m[1][1]).rstrip("\r") == behind]
+            if later:
+                self.probe("races_with_a_line_behind")
+                for _t, seq, _cid, _is_open, payload in world.device.writes[w0:]:
+                    parts = payload.decode("utf-8", "replace").rstrip("\n").split(";")
+                    if seq > later[0][0] and len(parts) == 6 and parts[0] == str(call[1]) and parts[2] == "1":
+                        self.add(vio("sent-while-asleep", {"line": behind, "got": [";".join(parts)], "model_kind": "race",
+                                                           "note": "command for the sleeping node written after the pump had moved on to another node's line"},
+                                     model_kind="race"))
+                        break
         out = self.out_lines()
         self.new_callbacks()
         self.health()
@@ -1368,6 +1387,10 @@ class NetRun:
             exp = self.model.on_line(fields, (0, 2 ** 40))
             if getattr(exp, "ota_config", None) and exp.ota_config.get("optional"):
                 self.model.ota.resolve_optional_config(fields[0], any(o[0].split(";")[2:5:2] == ["4", "1"] for o in out))
+        if behind:
+            _tier_b, fields_b = classify(behind, self.version)
+            if fields_b is not None:
+                self.model.on_line(fields_b, (0, 2 ** 40))
         if call[0] == "set" and "ok" in outcome:
             action, _exp = self.model.set_child_value_plan(call[1], call[2], int(call[3]), call[4])
             if action == "store":
